@@ -62,6 +62,7 @@ ObsReal(rec, k) ==
       push |-> {ToSet(rec.push[i].to) : i \in {j \in DOMAIN rec.push : rec.push[j].what = "msg"}},
       ackSeq |-> IF rep.k = "ctrl" /\ "seq" \in DOMAIN rep.params THEN rep.params.seq ELSE 0,
       afterCrash |-> rec.afterCrash,
+      nested |-> rec.nested,
       sysPre |-> IF rec.i > 0 /\ "sys" \in DOMAIN rec.st.topics THEN Trace[k - 1].st.topics["sys"].seq ELSE 0,
       sysPost |-> IF "sys" \in DOMAIN rec.st.topics THEN rec.st.topics["sys"].seq ELSE 0,
       \* permission-change notices received inside a group topic: [s, t, src (user named, "" = the recipient), want, given (texts)]
@@ -86,7 +87,7 @@ Check(k) ==
 Diverge(k) ==
   LET rec == Trace[k] IN
   IF rec.i = 0 THEN (IF Proj(rec.st) # InitState THEN {"init"} ELSE {})
-  ELSE IF ~Modelled(rec.act) \/ rec.faultFired THEN {}     \* outcome under an injected store fault is judged by the monitors only
+  ELSE IF ~Modelled(rec.act) \/ rec.faultFired \/ rec.nested.fired THEN {}     \* outcome under an injected store fault is judged by the monitors only
   ELSE LET pre == Proj(Trace[k - 1].st)
            post == Proj(rec.st)
            r == Step(pre, ModelAct(rec.act))
